@@ -75,7 +75,16 @@ func (e *Sim) Cases(tier string, _ int64) int {
 	}
 	return e.NQuick
 }
-func (e *Sim) Floors(tier string) map[string]int { return e.FloorsQ }
+// Floors: the engine's own antecedent floors plus two that every simulated history must reach
+// whatever the property (a run in which the replica-set controller never manages to write its
+// status or to create pods has judged next to nothing: inconclusive, not "held").
+func (e *Sim) Floors(tier string) map[string]int {
+	out := map[string]int{"sim.calls.status-update.ExtendedDaemonSetReplicaSet": 1000, "sim.calls.create.Pod": 300, "sim.calls.status-update.ExtendedDaemonSet": 500}
+	for k, v := range e.FloorsQ {
+		out[k] = v
+	}
+	return out
+}
 
 var stdTemplates = []string{"A", "B", "C"}
 
